@@ -28,6 +28,9 @@ RELEVANT = {
 GOOD = dict(hastime=True, sg=True, s=False, lc=False, p=True, srange=True, int16=True, nodataarg=True, nodataattr=True, groups=False, groupslen=True, dataset=False, zonesda=True, zonesnodata=True, dimexists=True, nzero=False, datetime=True)
 
 
+PVAL = [0.9]
+
+
 def call(op, f):
     import pandas as pd
     import xarray as xr
@@ -49,19 +52,19 @@ def call(op, f):
             if f["s"]:
                 kw["s"] = 10.0
             if f["p"]:
-                kw["p"] = 0.9
+                kw["p"] = PVAL[0]
             return da.hdc.whit.whits(ND, **kw)
         if op == "whitsvc":
             kw = {}
             if f["lc"]:
                 kw["lc"] = yx(0.7)
             if f["p"]:
-                kw["p"] = 0.9
+                kw["p"] = PVAL[0]
             if f["srange"]:
                 kw["srange"] = np.arange(-1, 1.5, 0.5)
             return da.hdc.whit.whitsvc(ND, **kw)
         if op == "whitswcv":
-            return da.hdc.whit.whitswcv(ND, p=0.9 if f["p"] else None)
+            return da.hdc.whit.whitswcv(ND, p=PVAL[0] if f["p"] else None)
         if op == "whitint":
             tm = np.zeros((T - 1) * 5 + 1)
             tm[::5] = 1
